@@ -111,9 +111,30 @@ func (ctx *context) GetSessionForConnection(c net.Conn) Session {
 	return nil
 }
 
+// ConnContextKey is the key under which the http server stores the connection of a request
+// in the context of the request.
+var ConnContextKey = &connContextKey{}
+
+type connContextKey struct{}
+
+// GetSessionForRequest returns the session of the connection on which the request arrived.
+//
+// Sessions are stored by address. The session which is stored for the address of the request
+// may belong to a newer connection from the same address (a controller which came back before
+// the end of the old connection was noticed): a request of the old connection has no session
+// any more and must not act on the new one.
 func (ctx *context) GetSessionForRequest(r *http.Request) Session {
 	key := ctx.GetConnectionKey(r)
-	return ctx.Get(key).(Session)
+	session, ok := ctx.Get(key).(Session)
+	if ok == false {
+		return nil
+	}
+
+	if c, ok := r.Context().Value(ConnContextKey).(net.Conn); ok == true && session.Connection() != c {
+		return nil
+	}
+
+	return session
 }
 
 func (ctx *context) DeleteSessionForConnection(c net.Conn) {
